@@ -355,7 +355,7 @@ pub fn exec(rest: &str, out: &mut Out) -> (String, bool) {
             let v = match parse_value(a[1]) { Some(v) => v, None => return ("bad-op".into(), false) };
             let mut known = false;
             match json_syntax::from_value::<Value>(v.clone()) {
-                Ok(w) => out.oracle(same_numbers(&dedup_last(&v), &w, &mut known), "deserializing a Value from a Value: same structure, every number the same integer or double", || format!("{} -> {}", show_value(&v), show_value(&w))),
+                Ok(w) => out.oracle(same_numbers(&dedup_last(&v), &w, &mut known) && !known, "deserializing a Value from a Value: same structure, every number the same integer or double (long decimals included: correctly rounded)", || format!("{} -> {}", show_value(&v), show_value(&w))),
                 Err(e) => out.oracle(false, "from_value::<Value> succeeds", || e.to_string()),
             }
             // through a self-describing deserializer reading JSON text: the numbers are the ones that
@@ -371,7 +371,6 @@ pub fn exec(rest: &str, out: &mut Out) -> (String, bool) {
                 (Err(_), Err(_)) => { out.count("text_rejected_by_serde_json"); }
                 (a, b) => out.oracle(false, "serde_json::from_str::<json_syntax::Value> succeeds exactly when serde_json accepts the text", || format!("{}: {:?} vs {:?}", text, a.is_ok(), b.is_ok())),
             }
-            if known { out.known("C17-de-lossy-ulp"); }
             ("ok".into(), true)
         }
         ("ser", 2) => {
